@@ -138,6 +138,15 @@ class Sweep:
                     break
         su, ou = um.slope[u], um.offset[u]
         has_conv_u = db.unit_to_unit_info[u].tobase.__has_conversion__
+        # unit names built at run time (new string objects that die after the call) are names like any other: the same
+        # numbers as with the table's own string objects
+        k0 = len(values) // 2
+        for v in units:
+            ctx.ev()
+            y = Convert(qt, "".join(list(u)), "".join(list(v)), values[k0])
+            if y != row[v][k0] and not (y != y and row[v][k0] != row[v][k0]):
+                ctx.record("conversion_depends_on_the_identity_of_the_unit_strings:%s:%s" % (self.cfg, qt), {"config": self.cfg, "qt": qt, "u": u, "v": v, "x": values[k0], "kind": "tempstr"}, "Convert(%r, <new string %r>, <new string %r>, %r) = %r, with the table's strings %r" % (qt, u, v, values[k0], y, row[v][k0]))
+                break
         # the same values handed over as one numpy array take another code path (the registered vectorised conversion):
         # the same numbers come out, so the array path is as invertible, path-independent and monotone as the float path
         import numpy
